@@ -14,7 +14,6 @@ import Manticore.Model.C14
 import Manticore.Lemmas.C14Text
 import Manticore.Lemmas.C14Blob
 import Manticore.Lemmas.C14Total
-import Manticore.Props.C14.Consts
 namespace Manticore.C14
 open Manticore
 
